@@ -41,6 +41,7 @@ impl MixinDecl {
                         call_args.evaluate(scope)?.args,
                     )?,
                     body: Parsed::Scss(decl.body.body),
+                    loading: None,
                 })
             }
             Self::NoBody => Ok(Mixin::empty(scope)),
@@ -85,10 +86,10 @@ impl MixinDecl {
                         scope.define(key.into(), value)?;
                     }
                 }
-                file_context.unlock_loading(&source);
                 Ok(Mixin {
                     scope,
                     body: source.parse()?,
+                    loading: Some(source),
                 })
             }
         }
@@ -105,6 +106,8 @@ pub struct Mixin {
     pub scope: ScopeRef,
     /// The body of this mixin.
     pub body: Parsed,
+    /// A file that is locked for loading while the body is handled.
+    pub(crate) loading: Option<crate::input::SourceFile>,
 }
 
 impl Mixin {
@@ -112,6 +115,7 @@ impl Mixin {
         Self {
             scope,
             body: Parsed::Css(vec![]),
+            loading: None,
         }
     }
     pub(crate) fn define_content(
